@@ -22,7 +22,15 @@ func (m *Mutex) Lock() {
 	t.point()
 	t.mu = nil
 	raceAcquire(unsafe.Pointer(m))
+	if yieldWhileHolding {
+		t.op = opYield
+		t.point()
+	}
 }
+
+// yieldWhileHolding (set by the generated zz_features.go when the code under test calls TryLock): a thread
+// that has just acquired a mutex yields once, so that another thread's TryLock can find the mutex held.
+var yieldWhileHolding bool
 
 //go:norace
 func (m *Mutex) TryLock() bool {
@@ -59,11 +67,13 @@ func (m *Mutex) Unlock() {
 	}
 }
 
-// RWMutex replaces sync.RWMutex (no writer preference: a superset of the
-// orders the runtime can produce between a reader and a not-yet-announced writer).
+// RWMutex replaces sync.RWMutex.  As in the runtime, Lock first ANNOUNCES the writer (one step) and then
+// waits for the readers to leave (a second step); from the announcement on, new RLock calls wait - so a
+// goroutine that read-locks recursively deadlocks when a writer announces itself in between.
 type RWMutex struct {
 	owner   int32
 	readers int32
+	wwait   int32 // writers that have announced themselves and wait for the readers to leave
 	hb      uint64
 	rsem    byte
 	wsem    byte
@@ -72,6 +82,10 @@ type RWMutex struct {
 //go:norace
 func (m *RWMutex) Lock() {
 	t := enter(true)
+	t.op = opYield // the announcement is a scheduling point of its own
+	t.point()
+	m.wwait++
+	rr.touch(t, &m.hb, 15)
 	t.op = opLock
 	t.mu = nil
 	t.rw = m
